@@ -160,6 +160,16 @@ func genG17Wiring(repo string, w *Out) error {
 		})
 		wiring = append(wiring, fmt.Sprintf("bind.%s: flag %q parsed by %s", fn, name, parser))
 	}
+	// how a list from the config file reaches the flag value (element by element, not re-split)
+	if cf, err := Parse(repo, "utils/cobrautil/bind.go"); err == nil {
+		if fd, err := cf.Func("setFlagFromViper"); err == nil {
+			wiring = append(wiring, "cobrautil.setFlagFromViper: "+cf.Src(fd.Body))
+		} else {
+			return err
+		}
+	} else {
+		return err
+	}
 	w.DefStrList("wiring", wiring)
 	// which forms of the host name the deny and the direct site consult (the model's [site_forms])
 	mf, hasForms := top["matchesAnyForm"]
